@@ -9,13 +9,14 @@ from .common import pp, Inst, setcol
 
 PROPERTY = "C31"
 LEVEL = "model_checking"
-FUNCTIONS = [("pandapower.build_branch", "_calc_tap_from_dataframe"), ("pandapower.build_branch", "_get_vk_values_from_table"),
+FUNCTIONS = [("pandapower.build_branch", "_calc_tap_from_dataframe"), ("pandapower.build_branch", "_trafo_df_from_trafo3w"),
+             ("pandapower.build_branch", "_calculate_3w_tap_changers"), ("pandapower.build_branch", "_get_vk_values_from_table"),
              ("pandapower.build_branch", "get_trafo_values")]
 STUBS = []
 ASSUMPTIONS = ["table rows carry symbolic voltage_ratio in [0.8,1.2], angle_deg in [-30,30], vk in [1,20], vkr in [0.1,1]; "
                "ids and steps are concrete and enumerated", "real arithmetic stands for floating point"]
 OUTSIDE = ["the deprecated spline characteristic path (_get_vk_values)", "tap2_* second tap changer with a table"]
-BOUNDS = {"quick": "2 two-winding trafos x ids in {(0,0),(0,1)} x tap positions {(-1,1),(1,-1),(0,0),(0,1)} x tap side {hv,lv}; 3W: 2 trafo3w sharing id",
+BOUNDS = {"quick": "2 two-winding trafos x ids in {(0,0),(0,1)} x tap positions {(-1,1),(1,-1),(0,0),(0,1)} x tap side {hv,lv}; 3W: 4 configurations of 2 trafo3w (tap side hv/mv/lv, terminal or star point, shared / different ids)",
           "thorough": "3 trafos, all id triples over {0,1}, all position triples over {-1,0,1}, both sides, mixed table/non-table"}
 
 STEPS = (-1, 0, 1)
@@ -96,6 +97,93 @@ def make_fn(ids, pos, side, table_flags):
     return fn
 
 
+_cache3 = {}
+VK3 = ["vk_hv_percent", "vkr_hv_percent", "vk_mv_percent", "vkr_mv_percent", "vk_lv_percent", "vkr_lv_percent"]
+
+
+def _net3(cfg):
+    """cfg: tuple of (tap_side, tap_at_star_point, id, tap_pos) per three-winding transformer"""
+    if cfg in _cache3:
+        return _cache3[cfg]
+    net = pp.create_empty_network()
+    b0 = pp.create_bus(net, 110.)
+    pp.create_ext_grid(net, b0)
+    for side, star, i, p in cfg:
+        mv, lv = pp.create_bus(net, 20.), pp.create_bus(net, 10.)
+        pp.create_transformer3w_from_parameters(net, b0, mv, lv, 110, 20, 10, 40, 25, 15, 10., 11., 12., .3, .31, .32, 20, 0.05,
+                                                shift_mv_degree=0., shift_lv_degree=150., tap_side=side, tap_neutral=0, tap_min=-2, tap_max=2,
+                                                tap_step_percent=1.5, tap_pos=p, tap_at_star_point=star, tap_changer_type="Tabular",
+                                                tap_dependency_table=True, id_characteristic_table=i)
+        pp.create_load(net, mv, 1., 0.5)
+        pp.create_load(net, lv, 0.5, 0.1)
+    rows = []
+    for i in IDS:
+        for st in STEPS:
+            rows.append({"id_characteristic": i, "step": st, "voltage_ratio": 1 + 0.015 * st + 0.001 * i, "angle_deg": 0.3 * st,
+                         "vk_percent": np.nan, "vkr_percent": np.nan, "vk_hv_percent": 10 + st, "vkr_hv_percent": 0.3 + 0.01 * st,
+                         "vk_mv_percent": 11 + st, "vkr_mv_percent": 0.31, "vk_lv_percent": 12 + st, "vkr_lv_percent": 0.32})
+    net["trafo_characteristic_table"] = pd.DataFrame(rows)
+    pp.runpp(net, numba=False, calculate_voltage_angles=True)
+    _cache3[cfg] = net
+    return net
+
+
+def make_3w(cfg):
+    """three-winding transformers: the equivalent two-winding data frame (3 entries per transformer) gets, for the winding that carries the
+    tap changer, the ratio and angle of the transformer's own table row - at the terminal, or inverted on the star-point side"""
+    def fn(ctx):
+        bb = ctx.load("pandapower.build_branch")
+        net = copy.deepcopy(_net3(cfg))
+        tab = net.trafo_characteristic_table
+        rng = {"voltage_ratio": (0.8, 1.2), "angle_deg": (-30., 30.)}
+        rng.update({c: ((1., 20.) if c.startswith("vk_") else (0.1, 1.)) for c in VK3})
+        sym = {c: {} for c in rng}
+        for c, (lo, hi) in rng.items():
+            vals = []
+            for i, st in zip(tab.id_characteristic, tab.step):
+                v = ctx.var(f"{c}_id{int(i)}_s{int(st)}", lo, hi)
+                sym[c][(int(i), int(st))] = v
+                vals.append(v)
+            setcol(ctx, tab, c, vals)
+        n = len(cfg)
+        vn = {w: [ctx.var(f"vn_{w}{k}", lo, hi) for k in range(n)] for w, (lo, hi) in {"hv": (50., 150.), "mv": (10., 30.), "lv": (5., 15.)}.items()}
+        for w in vn:
+            setcol(ctx, net.trafo3w, f"vn_{w}_kv", vn[w])
+        net._options["calculate_voltage_angles"] = True
+        net._options["mode"] = "pf"
+        vks = bb._get_vk_values_from_table(net.trafo3w, tab, "3W")
+        for k, (side, star, i, p) in enumerate(cfg):
+            for c, got in zip(VK3, vks):
+                ctx.eq(f"t{k}_{c}_own_row", got[k], sym[c][(i, p)])
+        # ratios / angles: through the real equivalent data frame (vk columns back to numbers: they are not the subject here)
+        for c in VK3:
+            net.trafo3w[c] = [10., 0.3, 11., 0.31, 12., 0.32][VK3.index(c)]
+            tab[c] = [10., 0.3, 11., 0.31, 12., 0.32][VK3.index(c)]
+        t2 = bb._trafo_df_from_trafo3w(net)
+        vnh, vnl, shift = bb._calc_tap_from_dataframe(net, t2)
+        base_shift = {"hv": 0., "mv": 0., "lv": 150.}
+        for k, (side, star, i, p) in enumerate(cfg):
+            rho, alpha = sym["voltage_ratio"][(i, p)], sym["angle_deg"][(i, p)]
+            for g, w in enumerate(("hv", "mv", "lv")):
+                e = g * n + k                      # entry of T_w of transformer k
+                want_h, want_l, want_s = vn["hv"][k], vn[w][k], base_shift[w]
+                if w == side:
+                    if not star:
+                        if w == "hv":
+                            want_h, want_s = want_h * rho, want_s + alpha
+                        else:
+                            want_l, want_s = want_l * rho, want_s - alpha
+                    else:                          # tap changer at the star point: the star-point side of T_w carries 1/ratio
+                        if w == "hv":
+                            want_l, want_s = want_l / rho, want_s + alpha
+                        else:
+                            want_h, want_s = want_h / rho, want_s - alpha
+                ctx.eq(f"t{k}_T{w}_hv_side_voltage", vnh[e], want_h)
+                ctx.eq(f"t{k}_T{w}_lv_side_voltage", vnl[e], want_l)
+                ctx.eq(f"t{k}_T{w}_shift", shift[e], want_s)
+    return fn
+
+
 def instances(tier):
     out = []
     if tier == "quick":
@@ -111,6 +199,14 @@ def instances(tier):
                     combos.append((ids, pos, s, (True, True, True)))
         combos += [((0, 0, 0), p, s, f) for p in [(-1, 1, 0), (1, 1, -1)] for s in ("hv", "lv")
                    for f in [(True, False, True), (False, True, True)]]
+    cfgs = [(("hv", False, 0, 1), ("mv", True, 0, -1)), (("mv", True, 0, 1), ("hv", False, 0, -1)), (("hv", True, 0, 1), ("lv", False, 1, 1)),
+            (("lv", True, 0, -1), ("mv", False, 0, 1))]
+    if tier == "thorough":
+        cfgs += [(("hv", False, 0, 1), ("mv", True, 0, -1), ("hv", True, 1, 0)), (("lv", False, 0, 1), ("mv", True, 0, -1), ("hv", False, 0, 0)),
+                 (("mv", False, 1, 1), ("mv", True, 1, -1)), (("hv", True, 0, 1), ("hv", False, 0, -1), ("lv", True, 0, 1))]
+    for cfg in cfgs:
+        name = "3w_" + "_".join(f"{sd}{'star' if st else 'term'}id{i}pos{p}" for sd, st, i, p in cfg)
+        out.append(Inst(name, make_3w(cfg), nvars=60, samples=2, raises=(UserWarning, DeprecationWarning), meta=dict(kind="trafo3w", config=[list(c) for c in cfg])))
     for ids, pos, side, flags in combos:
         name = f"2w_ids{''.join(map(str, ids))}_pos{'_'.join(map(str, pos))}_{side}_tab{''.join('1' if f else '0' for f in flags)}"
         out.append(Inst(name, make_fn(ids, pos, side, flags), nvars=24 + 4 * len(ids) + 2,
